@@ -168,6 +168,20 @@ func uniqueNames(v []string) string {
 	return ""
 }
 
+// canary: an ordinary expansion executed right after a (possibly refused) fill; a refused or failed
+// fill must not leave anything behind that changes later, unrelated fills
+func canary(c *h.Ctx, after string) {
+	t := ref.List(&ref.Node{Kind: ref.U1, Elems: []ref.Elem{{Var: "x"}}}, ref.Var("tail"), ref.Ell("..."), ref.AsciiVar("z", 0, -1))
+	counts := map[string]int{"...": 2}
+	res, pan := tryFill(Build(t), map[string]interface{}{"...": 2})
+	c.Ops(1)
+	if pan != "" {
+		c.Fail("later-fill-affected-by-an-earlier-one", "after "+after, "canary fill <L <U1 x> tail ... <A z>> with 2 was refused: "+pan)
+	} else if dd := matchesRef(res, refEllipsisFill(t, counts)); dd != "" {
+		c.Fail("later-fill-affected-by-an-earlier-one", "after "+after, "canary fill differs: "+dd)
+	}
+}
+
 func c10Atoms() []*ref.Node {
 	q := ref.Elem{Var: "?"}
 	return []*ref.Node{
@@ -415,6 +429,10 @@ func init() {
 				ref.List(ref.Var("x[1]"), ref.Ell("..."), ref.Var("x[1][0]")),
 				ref.List(ref.List(ref.Var("x"), ref.Ell("...[0]")), ref.Ell("...[1]"), ref.Var("x[1][1]")),
 				ref.List(ref.AsciiVar("x", 0, -1), ref.Ell("..."), ref.AsciiVar("x[1]", 0, -1)),
+				// clashes INSIDE an expanded group (the construction fails half-way through the walk)
+				ref.List(ref.List(&ref.Node{Kind: ref.U1, Elems: []ref.Elem{{Var: "a"}}}, ref.Ell("...[0]"), &ref.Node{Kind: ref.U1, Elems: []ref.Elem{{Var: "a[0]"}}}), ref.Ell("...[1]")),
+				ref.List(ref.List(ref.List(ref.Var("a"), ref.Ell("...[0]"), ref.Var("a[0][0]")), ref.Ell("...[1]")), ref.Ell("...[2]")),
+				ref.List(ref.List(ref.AsciiVar("s", 0, -1), ref.Var("s[1]"), ref.Ell("...[0]")), ref.Uints(ref.U1, 1), ref.Ell("...[1]")),
 			}
 			sp = append(sp, h.Space{Name: "suffixed-name-family", Count: uint64(len(fam) * 4),
 				Describe: func(i uint64) interface{} {
@@ -433,6 +451,7 @@ func init() {
 							c.Fail("duplicate-name-after-expansion", ref.Print(t)+fmt.Sprint(m), dup)
 						}
 					}
+					canary(c, fmt.Sprintf("%s filled with %v (refused=%v)", strings.ReplaceAll(ref.Print(t), "\n", " "), m, pan != ""))
 					c.Case(0, true, map[bool]string{true: "refused", false: "unique"}[pan != ""])
 				}})
 			// non-int and negative counts must be refused
@@ -467,6 +486,7 @@ func init() {
 							c.Fail("invalid-repeat-count-garbage", fmt.Sprintf("%s filled with %s", ref.Print(t), showMap(m)), itemString(res))
 						}
 					}
+					canary(c, fmt.Sprintf("%s filled with %s (outcome %s)", strings.ReplaceAll(ref.Print(t), "\n", " "), showMap(m), out))
 					c.Case(0, true, out)
 				}})
 			return sp
